@@ -188,6 +188,20 @@ func lostErrors(c *core.Ctx, fns []*ssa.Function) []errProblem {
 								}
 							}
 						}
+						// variadic arguments: the values stored into the argument array
+						if sl, isSl := v.(*ssa.Slice); isSl {
+							if al, isAl := sl.X.(*ssa.Alloc); isAl {
+								for _, r := range *al.Referrers() {
+									if ia, isIA := r.(*ssa.IndexAddr); isIA {
+										for _, rr := range *ia.Referrers() {
+											if st2, isSt2 := rr.(*ssa.Store); isSt2 {
+												walk(st2.Val, depth+1)
+											}
+										}
+									}
+								}
+							}
+						}
 					}
 					walk(st.Val, 0)
 					// ... or the store happens only when the old one is nil
